@@ -273,8 +273,39 @@ def builds_case(name, spec):
     return res
 
 
+def builds_expr_case(name, spec):
+    """Every expression of the C04 corpus that FFCx accepts must give C that gcc builds."""
+    from . import exprcheck
+
+    res = {"name": name, "queries": {}, "violations": [], "harness": [], "inconclusive": [], "outside": [], "samples": [], "extra": {"modules_built": 0}}
+    try:
+        for scalar in spec.get("scalars", ["float64"]):
+            expr, pts = exprcheck.EXPRS[name]["build"]()
+            opts = dict(spec.get("options") or {}, scalar_type=scalar)
+            try:
+                h, c = gen.compile_c([(expr, np.asarray(pts, dtype=float))], opts)
+            except gen.Rejected as e:
+                res["outside"].append(f"{name} [{scalar}]: rejected by FFCx before the C compiler: {e}")
+                continue
+            ok, err = gcc_compiles(c)
+            res["extra"]["modules_built"] += 1
+            if not ok:
+                res["violations"].append({"key": f"expr:{name}:{scalar}:does-not-compile", "what": f"accepted expression produces C that gcc rejects: {err[:300]}",
+                                          "replay": {"kind": "builds", "name": name, "options": opts, "expr": True}})
+        res["samples"].append({"expression": name})
+    except Exception as e:
+        res["harness"].append(f"{name}: {type(e).__name__}: {e} {traceback.format_exc()[-600:]}")
+    return res
+
+
 def replay_builds(p):
-    form = corpus.build(p["name"])
+    if p.get("expr"):
+        from . import exprcheck
+
+        expr, pts = exprcheck.EXPRS[p["name"]]["build"]()
+        form = (expr, np.asarray(pts, dtype=float))
+    else:
+        form = corpus.build(p["name"])
     h, c = gen.compile_c([form], p["options"])
     ok, err = gcc_compiles(c)
     print("gcc:", "ok" if ok else err)
